@@ -27,6 +27,10 @@ type c04Case struct {
 	Comp    string           `json:"composition"` // cb | retry(cb) | timeout(cb) | cb(timeout) | fallback(cb)
 	Workers int              `json:"workers"`
 	Async   bool             `json:"async"`
+	// DelayFunc: the breaker gets a delay function (returning the configured delay); ManualOpen: it is opened without an
+	// execution (Open() or standalone RecordFailure) while executions keep arriving
+	DelayFunc  bool `json:"delay_func"`
+	ManualOpen bool `json:"manual_open"`
 }
 
 type c04Exec struct {
@@ -54,6 +58,9 @@ type c04Round struct {
 func newC04Round(cs c04Case) *c04Round {
 	rd := &c04Round{cs: cs}
 	b := buildBreaker(cs.Cfg, func() int64 { return rd.clock.Load() })
+	if cs.DelayFunc {
+		b.WithDelayFunc(func(failsafe.ExecutionAttempt[int]) time.Duration { return time.Duration(cs.Cfg.Delay) })
+	}
 	b.OnStateChanged(func(e circuitbreaker.StateChangedEvent) {
 		s := rd.seq.Add(1)
 		rd.mu.Lock()
@@ -193,7 +200,8 @@ func c04RunRound(rep *vk.Report, idx int) {
 		cfg.SuccKind, cfg.SuccThreshold, cfg.SuccCapacity = "", 0, 0
 		capTrial = cfg.FailCapacity
 	}
-	cs := c04Case{Cfg: cfg, Comp: vk.Pick(r, "cb", "cb", "retry(cb)", "timeout(cb)", "cb(timeout)", "fallback(cb)"), Workers: 8 + r.IntN(25), Async: r.IntN(3) == 0}
+	cs := c04Case{Cfg: cfg, Comp: vk.Pick(r, "cb", "cb", "retry(cb)", "timeout(cb)", "cb(timeout)", "fallback(cb)"), Workers: 8 + r.IntN(25), Async: r.IntN(3) == 0,
+		DelayFunc: r.IntN(2) == 0, ManualOpen: r.IntN(4) == 0}
 	rd := newC04Round(cs)
 	rep.Eval()
 	viol := func(sig, msg string) {
@@ -210,6 +218,15 @@ func c04RunRound(rep *vk.Report, idx int) {
 			defer wg.Done()
 			after := 0
 			for i := 0; i < 400 && after < 6; i++ {
+				if cs.ManualOpen && w == 0 && i == 2 {
+					if wr.IntN(2) == 0 {
+						rd.cb.Open()
+					} else {
+						for k := uint(0); k < cs.Cfg.FailCapacity; k++ {
+							rd.cb.RecordFailure()
+						}
+					}
+				}
 				beh := "fail"
 				if wr.IntN(3) == 0 {
 					beh = "ok"
